@@ -1,11 +1,11 @@
 package main
 
 import (
-	"go/types"
 	"encoding/json"
 	"flag"
 	"fmt"
 	"go/ast"
+	"go/types"
 	"os"
 	"os/exec"
 	"path/filepath"
@@ -170,7 +170,10 @@ func main() {
 	if *budget > 0 {
 		cfg.Deadline = time.Now().Add(*budget)
 	}
-	debug.SetGCPercent(600)
+	if os.Getenv("GOGC") == "" {
+		debug.SetGCPercent(600)
+	}
+	prefault()
 	root := verifRoot()
 	t0 := time.Now()
 	ld := load(root)
@@ -268,4 +271,27 @@ func (ld *loaded) lookupTypes() (ute, jt, st types.Type) {
 		}
 	}
 	return
+}
+
+// prefault touches a block of heap from one thread before the parallel phases start. On virtualised hosts where
+// first-touch page faults from many threads of one process contend badly (observed: 16 threads 40x slower per fault
+// than one), this moves the faults to the cheap single-threaded regime; the freed block is then reused by the heap.
+// VERIF_PREFAULT_MB=0 switches it off.
+func prefault() {
+	mb := 1536
+	if v := os.Getenv("VERIF_PREFAULT_MB"); v != "" {
+		fmt.Sscanf(v, "%d", &mb)
+	}
+	if mb <= 0 {
+		return
+	}
+	var keep [][]byte
+	for i := 0; i < mb/16; i++ {
+		b := make([]byte, 16<<20)
+		for j := 0; j < len(b); j += 4096 {
+			b[j] = 1
+		}
+		keep = append(keep, b)
+	}
+	runtime.KeepAlive(keep)
 }
